@@ -270,6 +270,11 @@ def run(ctx):
             scns.append(s)
     if len(scns) != 5 ** n + 4 ** n:
         raise ToolError("NcSession produced %d distinct scenarios, expected %d" % (len(scns), 5 ** n + 4 ** n))
+    # a long history in one session (beyond the bound of the exhaustive run; the law is the same - OwnReply, NoLoss): eighteen
+    # calls that time out with their replies arriving late (filed, never fetched), then calls that are answered at once
+    longs = [["late"] * 16 + ["now", "now"], ["late"] * 18 + ["now", "late", "now"], ["late", "now"] * 20]
+    for k, pol in enumerate(longs):
+        scns.append({"n": len(pol), "echo": k == 1, "policy": pol, "outcome": ["timeout" if p == "late" else "ok" for p in pol], "ids": list(range(101, 101 + len(pol)))})
     res = ctx.run_harness("c08", scns, timeout=3000)
     per = 6 if thorough else 2
     if len(res) != len(scns) * per:
